@@ -512,3 +512,73 @@ def writes_of(fn):
             if isinstance(e, dict) and "n" in e and e["of"] not in ("tuple", "closure", ""):
                 out.append((e["of"], e["n"], "assign", bi, t.get("line")))
     return out
+
+
+# ---------------------------------------------------------------- expression descriptors
+
+_COMM = {"Add", "Mul", "BitXor", "BitAnd", "BitOr", "Eq", "Ne", "And", "Or"}
+_FLIP = {"Gt": "Lt", "Ge": "Le"}
+
+
+def hdesc(e, depth=0):
+    """canonical nested-tuple description of a small HIR expression: commutative operands sorted,
+    `a > b` rewritten to `b < a`, derefs / borrows / blocks looked through"""
+    e = strip(e)
+    if not isinstance(e, dict) or depth > 12:
+        return ("?",)
+    k = e.get("k")
+    if k == "path":
+        return ("v", hpath(e))
+    if k == "lit":
+        return ("c", e.get("v"))
+    if k == "unary":
+        if e["op"] == "Deref":
+            return hdesc(e["a"], depth + 1)
+        if e["op"] == "Neg" and hlit(e["a"]) is not None:
+            return ("c", -hlit(e["a"]))
+        return (e["op"], hdesc(e["a"], depth + 1))
+    if k == "binary":
+        op = e["op"]
+        l, r = hdesc(e["l"], depth + 1), hdesc(e["r"], depth + 1)
+        if op in _FLIP:
+            op, l, r = _FLIP[op], r, l
+        if op in _COMM:
+            l, r = sorted((l, r), key=repr)
+        return (op, l, r)
+    if k == "cast":
+        return ("cast", e.get("ty"), hdesc(e["a"], depth + 1))
+    if k == "field":
+        return ("f", e["name"], hdesc(e["a"], depth + 1))
+    if k == "index":
+        return ("idx", hdesc(e["a"], depth + 1), hdesc(e["i"], depth + 1))
+    if k == "mcall":
+        return ("m", norm(e.get("path")), hdesc(e["recv"], depth + 1)) + tuple(hdesc(a, depth + 1) for a in e["args"])
+    if k == "call":
+        return ("call", norm(hcallee(e))) + tuple(hdesc(a, depth + 1) for a in e["args"])
+    if k == "tup":
+        return ("tup",) + tuple(hdesc(a, depth + 1) for a in e["es"])
+    return ("?", k)
+
+
+def refdesc(r, names):
+    """reference semantics (JSON list) → the same canonical form; `names` maps lhs/rhs/val to local names"""
+    if isinstance(r, str):
+        return ("v", names.get(r, r))
+    if isinstance(r, int):
+        return ("c", r)
+    op = r[0]
+    if op == "bool":
+        return ("cast", "i64", refdesc(r[1], names))
+    if len(r) == 2:
+        return (op, refdesc(r[1], names))
+    l, rr = refdesc(r[1], names), refdesc(r[2], names)
+    if op in _FLIP:
+        op, l, rr = _FLIP[op], rr, l
+    if op in _COMM:
+        l, rr = sorted((l, rr), key=repr)
+    return (op, l, rr)
+
+
+def owned(fx, fn):
+    """fn plus its (nested) closures"""
+    return [fn] + [c for c in fx.fns.values() if c.kind == "closure" and c.path.startswith(fn.path + "::{closure")]
